@@ -69,6 +69,54 @@ def main():
                 a, b, r = joblib.load(buf)
                 if a is not b or r["self"] is not r:
                     return dict(violation=True, cases=cases, what="shared / recursive references not preserved", witness=dict(protocol=proto, compress=repr(comp)))
+        # several objects dumped one after the other into one open file and loaded back in sequence: the second object starts at an
+        # arbitrary offset, in particular a few bytes before the end of the reader's internal buffer (peek() then answers short)
+        import io as _io
+        bufsize = _io.DEFAULT_BUFFER_SIZE
+        for comp in (0, ("zlib", 3), ("gzip", 3), ("bz2", 3), ("lzma", 3), ("xz", 3)):
+            for offset in [12, bufsize - 6, bufsize - 5, bufsize - 4, bufsize - 3, bufsize - 2, bufsize - 1, bufsize, bufsize + 1, 2 * bufsize - 1]:
+                pth = os.path.join(root, "seq.bin")
+                size = None
+                for cand in range(max(0, offset - 80), offset):
+                    with open(pth, "wb") as f:
+                        joblib.dump(b"h" * cand, f)
+                        if f.tell() == offset:
+                            size = cand
+                            joblib.dump({"second": [1, 2, 3]}, f, compress=comp)
+                            break
+                if size is None:
+                    continue
+                cases += 1
+                try:
+                    with open(pth, "rb") as f:
+                        first, second = joblib.load(f), joblib.load(f)
+                    ok = first == b"h" * size and second == {"second": [1, 2, 3]}
+                    what = "second object of one file came back as %r" % (second,)
+                except Exception as e:  # noqa
+                    ok, what = False, "loading the second object of one file raised %r" % (e,)
+                if not ok:
+                    return dict(violation=True, cases=cases, what=what, witness=dict(compress=repr(comp), second_object_starts_at=offset, buffer_size=bufsize))
+        # a compressor registered after the first load, with a prefix longer than every built-in one, read back from a stream without peek()
+        import subprocess
+        code = ("import io, joblib\n"
+                "from joblib.compressor import CompressorWrapper, register_compressor\n"
+                "import gzip\n"
+                "b = io.BytesIO(); joblib.dump(1, b); b.seek(0); joblib.load(b)\n"
+                "class W(CompressorWrapper):\n"
+                "    def __init__(self):\n"
+                "        super().__init__(obj=None, prefix=b'LATECOMPRESSOR', extension='.late')\n"
+                "    def compressor_file(self, fileobj, compresslevel=None):\n"
+                "        fileobj.write(self.prefix); return gzip.GzipFile(fileobj=fileobj, mode='wb')\n"
+                "    def decompressor_file(self, fileobj):\n"
+                "        fileobj.read(len(self.prefix)); return gzip.GzipFile(fileobj=fileobj, mode='rb')\n"
+                "register_compressor('late', W())\n"
+                "b = io.BytesIO(); joblib.dump([1, 2, 3], b, compress=('late', 3)); b.seek(0)\n"
+                "assert joblib.load(b) == [1, 2, 3]\n")
+        cases += 1
+        pr = subprocess.run([sys.executable, "-c", code], capture_output=True, text=True, timeout=120)
+        if pr.returncode != 0:
+            return dict(violation=True, cases=cases, what="compressor registered after the first load is not recognised: %s" % pr.stderr.strip().splitlines()[-1:],
+                        witness="register_compressor(prefix of 14 bytes) after a load(), dump + load through io.BytesIO")
         # invalid requests are rejected with ValueError and write nothing
         for comp, target in ((10, "f"), ("nosuch", "f"), (("zlib", 3, 1), "f"), (("zlib", 11), "f"), (3, 5)):
             cases += 1
